@@ -418,6 +418,8 @@ func (v *PacketDslVisitorImpl) VisitInerObjectField(ctx *gen.InerObjectFieldCont
 	name := decl.IDENTIFIER().GetText()
 	var subFields []*model.Field
 	var subFieldMap = make(map[string]*model.Field)
+	var subFieldLine = make(map[string]int)
+	var subFieldColumn = make(map[string]int)
 	// Iterate all sub-field definitions inside the nested object
 	for _, fctx := range decl.AllFieldDefinition() {
 		fld := v.VisitFieldDefinition(fctx)
@@ -445,6 +447,25 @@ func (v *PacketDslVisitorImpl) VisitInerObjectField(ctx *gen.InerObjectFieldCont
 		}
 		subFields = append(subFields, f)
 		subFieldMap[f.Name] = f
+		subFieldLine[f.Name] = fctx.GetStart().GetLine()
+		subFieldColumn[f.Name] = fctx.GetStart().GetTokenSource().GetCharPositionInLine()
+	}
+	// link match fields to their key fields, as for the fields of a top-level packet
+	var matchFields = make(map[string][]model.MatchPair)
+	for _, f := range subFields {
+		if c, ok := f.Attr.(*model.MatchFieldAttribute); ok {
+			keyField, exists := subFieldMap[c.MatchKeyField.Name]
+			if !exists {
+				v.BinModel.AddSyntaxError(&model.SyntaxError{
+					Line:   subFieldLine[f.Name],
+					Column: subFieldColumn[f.Name],
+					Msg:    "Unknown key field " + c.MatchKeyField.Name + " for match field " + f.Name,
+				})
+				continue
+			}
+			c.MatchKeyField = keyField
+			matchFields[keyField.Name] = c.MatchPairs
+		}
 	}
 	// Construct nested Packet model
 	p := model.Packet{
@@ -453,6 +474,11 @@ func (v *PacketDslVisitorImpl) VisitInerObjectField(ctx *gen.InerObjectFieldCont
 		Fields: subFields,
 		Line:   ctx.GetStart().GetLine(),
 		Column: ctx.GetStart().GetTokenSource().GetCharPositionInLine(),
+	}
+	if len(matchFields) > 0 {
+		// the generators look the key field up by name and build one factory per key field
+		p.FieldMap = subFieldMap
+		p.MatchFields = matchFields
 	}
 	return &model.Field{
 		Name:     name,
